@@ -129,7 +129,7 @@ class Gen:
             s = " ".join("".join(r.choice(LETTERS) for _ in range(r.randrange(1, 8)))
                          for _ in range(r.randrange(1, 6)))
             if r.random() < 0.4:
-                s = s.replace(" ", r.choice(["\n", "\r\n  ", "-\n   ", "\t", "  "]), 1)
+                s = s.replace(" ", r.choice(["\n", "\r\n  ", "-\n   ", "- \n ", " -\t\r\n", "-  \n", "\t", "  "]), 1)
         else:
             s = "".join(r.choice(pool + "\n\t") for _ in range(r.randrange(0, 20)))
         if self.dialect in ("ODL", "PDS3"):
@@ -466,7 +466,7 @@ def damage(rng, stmts):
 # --------------------------------------------------------------------- Python-object modules (C01 …)
 BORDER_STRINGS = ["", " ", "a b", "NULL", "null", "Null", "TRUE", "true", "False", "END", "end", "End", "GROUP",
                   "group", "End_Group", "BEGIN_OBJECT", "object", "1", "-5", "1.5", "1e5", "16#FF#", "inf", "nan",
-                  "2001-01-01", "2001-001", "10:00", "10:00:60", "x-", "a-\nb", "it's", 'say "hi"', "both ' and \"",
+                  "2001-01-01", "2001-001", "10:00", "10:00:60", "x-", "a-\nb", "10 - \n20 km", "x-\t\nrest", "a -  \r\n b", "it's", 'say "hi"', "both ' and \"",
                   "tab\there", "two  blanks", " lead", "trail ", "line1\nline2", "a\r\nb", "semi;colon", "a=b",
                   "(paren)", "{brace}", "<angle>", "#hash", "/* c */", "*/", "a*", "/x", "caf\xe9", "\xb5m",
                   "snow☃", "x" * 45, "word " * 20, "_under", "under_", "9lives", "ok_name", "N:S", "^PTR"]
